@@ -120,6 +120,7 @@ fn head_string(method: &str, scheme: Option<&str>, authority: Option<&str>, path
 
 async fn recv_message_srv<S: h3::quic::RecvStream>(s: &mut h3::server::RequestStream<S, Bytes>, seen: &Shared<Seen>) {
     loop {
+        app_pause().await;
         match s.recv_data().await {
             Ok(Some(b)) => {
                 let v = drain(b);
@@ -135,6 +136,7 @@ async fn recv_message_srv<S: h3::quic::RecvStream>(s: &mut h3::server::RequestSt
             }
         }
     }
+    app_pause().await;
     match s.recv_trailers().await {
         Ok(Some(t)) => seen.borrow_mut().trailers = headermap_str(&t),
         Ok(None) => seen.borrow_mut().trailers = "none".into(),
@@ -155,6 +157,7 @@ async fn recv_message_cli<S: h3::quic::RecvStream>(s: &mut h3::client::RequestSt
         }
     }
     loop {
+        app_pause().await;
         match s.recv_data().await {
             Ok(Some(b)) => {
                 let v = drain(b);
@@ -170,6 +173,7 @@ async fn recv_message_cli<S: h3::quic::RecvStream>(s: &mut h3::client::RequestSt
             }
         }
     }
+    app_pause().await;
     match s.recv_trailers().await {
         Ok(Some(t)) => seen.borrow_mut().trailers = headermap_str(&t),
         Ok(None) => seen.borrow_mut().trailers = "none".into(),
@@ -182,6 +186,7 @@ async fn recv_message_cli<S: h3::quic::RecvStream>(s: &mut h3::client::RequestSt
 }
 
 pub fn execute(shape: &Shape, seed: u64, explore_mode: bool) -> Outcome {
+    set_app_pauses(explore_mode);
     let mut cfg = NetCfg::default();
     if explore_mode {
         cfg.read = Policy::Choose;
@@ -600,7 +605,7 @@ pub fn run(args: &Args) -> i32 {
     rep.exhaustive = true;
     let shapes = shapes(thorough);
     rep.rule = format!(
-        "{} message shapes from the product of 5 method kinds (GET, POST, OPTIONS, CONNECT, extended CONNECT) x 7 targets (absolute https/http with and without path and query, root path with a query, empty path with a query, authority-form, path + Host header) x 7 header multisets (static-table hit, name-only hit, literal, a name three times interleaved with another, 300-byte value, bytes 0x80-0xff) x 9 body piece lists (0..65536 bytes, pieces of 0,1,2,3,63,64,65,16383,16384 bytes) x 3 trailer options, independently for request and response, request stream whole or split into halves on separate tasks. Each shape: every execution with <= {bound} deviations, a deviation being a chunk cut (dense for short reads, at write-chunk boundaries +-1 otherwise) or delayed delivery on the request stream in either direction, a partial or pending write acceptance, or a scheduling choice other than the FIFO default among client task, client driver, server task, handlers and split halves; plus every shape once under one-byte-per-read and once under one-byte-per-write. Body bytes are position-coded. Oracle: message in = message out. states = distinct (transport cursors, observation progress) fingerprints; non-trivial = executions with at least one deviation.",
+        "{} message shapes from the product of 5 method kinds (GET, POST, OPTIONS, CONNECT, extended CONNECT) x 7 targets (absolute https/http with and without path and query, root path with a query, empty path with a query, authority-form, path + Host header) x 7 header multisets (static-table hit, name-only hit, literal, a name three times interleaved with another, 300-byte value, bytes 0x80-0xff) x 9 body piece lists (0..65536 bytes, pieces of 0,1,2,3,63,64,65,16383,16384 bytes) x 3 trailer options, independently for request and response, request stream whole or split into halves on separate tasks. Each shape: every execution with <= {bound} deviations, a deviation being a chunk cut (dense for short reads, at write-chunk boundaries +-1 otherwise) or delayed delivery on the request stream in either direction, a partial or pending write acceptance, an application pause between two receive calls, or a scheduling choice other than the FIFO default among client task, client driver, server task, handlers and split halves; plus every shape once under one-byte-per-read and once under one-byte-per-write. Body bytes are position-coded. Oracle: message in = message out. states = distinct (transport cursors, observation progress) fingerprints; non-trivial = executions with at least one deviation.",
         shapes.len()
     );
     rep.assumptions = vec![
